@@ -11,6 +11,8 @@ Steps (all in a fresh scratch worktree of /repo HEAD, removed afterwards):
 import json, os, shutil, subprocess, sys, tempfile, time
 
 ENV = dict(os.environ, GOFLAGS="-mod=mod", GOPROXY="off", GOSUMDB="off", GOTOOLCHAIN="local")
+# the checks run against a patched tree here: keep their evidence and replay files out of /verif
+CHECK_ENV = dict(ENV, VERIF_DIR=tempfile.mkdtemp(prefix="verif-seedrun-"))
 
 def run(cmd, cwd=None, timeout=1800):
     r = subprocess.run(cmd, cwd=cwd, env=ENV, capture_output=True, text=True, timeout=timeout)
